@@ -4,7 +4,8 @@ replays natively; anything else (unknown, error line, disagreement) is inconclus
 import subprocess, re, time, shutil
 from .mir import PRELUDE
 
-SOLVERS = [("z3", ["z3", "-in", "-T:120"]), ("cvc5", ["cvc5", "--lang", "smt2", "--incremental", "--produce-models", "--tlimit-per=120000"])]
+SOLVERS = [("z3", ["z3", "-in", "-T:60"]), ("cvc5", ["cvc5", "--lang", "smt2", "--incremental", "--produce-models", "--tlimit-per=60000"])]
+FALLBACK = ("z3-new", ["z3-new", "-in", "-T:60"])   # z3 5.1: asked only about queries on which one of the two gave no answer
 
 
 def available():
@@ -91,6 +92,17 @@ def decide(decls, queries):
         out, dt = run_solver(cmd, script)
         per[name] = parse_output(out) if out != "TIMEOUT" else {}
         stats[name] = round(dt, 2)
+    undecided = [(q, a, g, []) for q, a, g, _ in queries if any(per[n].get(q, ("missing",))[0] not in ("sat", "unsat") for n in per)]
+    if undecided and shutil.which(FALLBACK[1][0]):
+        out, dt = run_solver(FALLBACK[1], build_script(decls, undecided))
+        fb = parse_output(out) if out != "TIMEOUT" else {}
+        stats[FALLBACK[0]] = round(dt, 2)
+        for q, _, _, _ in undecided:
+            # the fallback replaces the solver that gave no answer
+            for n in list(per):
+                if per[n].get(q, ("missing",))[0] not in ("sat", "unsat") and q in fb:
+                    per[n][q] = fb[q]
+                    break
     sat_q = [(q, a, g, names) for q, a, g, names in queries if names and any(per[n].get(q, ("",))[0] == "sat" for n in per)]
     models = {}
     if sat_q:
